@@ -41,6 +41,7 @@ type LifeCase struct {
 	ReadDelayMs  int          `json:"read_delay_ms"`         // storage: delay of each ReadAt (stretches verification)
 	WriteDelayMs int          `json:"write_delay_ms"`        // storage: delay of each WriteAt
 	AddStopped   bool         `json:"add_stopped"`
+	MaxPeerDial  int          `json:"max_peer_dial"` // 0 = default; small values leave known addresses queued
 }
 
 var opKinds = []string{"start", "start", "stop", "stop", "stopwait", "verify", "verifywait", "announce", "addpeer", "addpeer", "addtracker", "stats", "peers", "sleep", "sleep",
@@ -76,6 +77,7 @@ func genLife(t *rapid.T) LifeCase {
 	c.ReadDelayMs = rapid.SampledFrom([]int{0, 0, 2, 10}).Draw(t, "readDelay")
 	c.WriteDelayMs = rapid.SampledFrom([]int{0, 0, 5, 30}).Draw(t, "writeDelay")
 	c.AddStopped = rapid.Bool().Draw(t, "addStopped")
+	c.MaxPeerDial = rapid.SampledFrom([]int{0, 0, 1, 2}).Draw(t, "maxPeerDial")
 	return c
 }
 
@@ -93,6 +95,9 @@ func runLife(c LifeCase) core.Result {
 	defer cleanup()
 	cfg := sess.Config(dir)
 	cfg.TrackerStopTimeout = stopTimeout
+	if c.MaxPeerDial > 0 {
+		cfg.MaxPeerDial = c.MaxPeerDial
+	}
 	prov := sstore.NewProvider()
 	var mem *sstore.Mem
 	var memMu sync.Mutex
@@ -131,30 +136,40 @@ func runLife(c LifeCase) core.Result {
 			ses.Close()
 		}
 	}()
-	// honest seeder
-	ln, err := net.Listen("tcp4", sess.IP(1)+":0")
-	if err != nil {
-		panic(err)
-	}
-	defer ln.Close()
-	go func() {
-		for {
-			conn, err := ln.Accept()
-			if err != nil {
-				return
-			}
-			go func() {
-				var id [20]byte
-				copy(id[:], "-SP0001-000000000001")
-				p, err := speer.Accept(conn, speer.Opts{InfoHash: ih, PeerID: id, Fast: true, Ext: true, MetadataSize: int64(len(infoBytes)), Reqq: 250}, 3*time.Second)
+	var tor *torrent.Torrent
+	// honest seeders on three addresses (more known addresses than dial slots when MaxPeerDial is small)
+	var seedAddrs []string
+	for k := 1; k <= 3; k++ {
+		ln, err := net.Listen("tcp4", sess.IP(k)+":0")
+		if err != nil {
+			panic(err)
+		}
+		defer ln.Close()
+		seedAddrs = append(seedAddrs, ln.Addr().String())
+		go func(k int, ln net.Listener) {
+			for {
+				conn, err := ln.Accept()
 				if err != nil {
 					return
 				}
-				speer.Serve(p, speer.Behaviour{DelayPerBlockMs: 3}, F, pl, infoBytes)
-			}()
+				go func() {
+					var id [20]byte
+					copy(id[:], fmt.Sprintf("-SP0001-%012d", k))
+					p, err := speer.Accept(conn, speer.Opts{InfoHash: ih, PeerID: id, Fast: true, Ext: true, MetadataSize: int64(len(infoBytes)), Reqq: 250}, 3*time.Second)
+					if err != nil {
+						return
+					}
+					speer.Serve(p, speer.Behaviour{DelayPerBlockMs: 3}, F, pl, infoBytes)
+				}()
+			}
+		}(k, ln)
+	}
+	addPeers := func() {
+		for _, a := range seedAddrs {
+			_ = tor.AddPeer(a)
 		}
-	}()
-	tor, err := ses.AddTorrent(bytes.NewReader(l.Metainfo(F, [][]string{{trk.URL()}}, nil)), &torrent.AddTorrentOptions{Stopped: c.AddStopped})
+	}
+	tor, err = ses.AddTorrent(bytes.NewReader(l.Metainfo(F, [][]string{{trk.URL()}}, nil)), &torrent.AddTorrentOptions{Stopped: c.AddStopped})
 	if err != nil {
 		return core.Failf("adding a valid torrent failed: %v", err)
 	}
@@ -213,6 +228,7 @@ func runLife(c LifeCase) core.Result {
 	lifecycleCmds := 0
 	var lastCmd string
 	verifyPending := false
+	mutSeq, verifyMutSeq := 0, 0 // external file mutations so far / at the time of the last verify command
 	truthful := func(after string) string {
 		if !stats() {
 			return hang
@@ -305,6 +321,7 @@ func runLife(c LifeCase) core.Result {
 			}
 			lab["verify-from-"+before] = true
 			verifyPending = true
+			verifyMutSeq = mutSeq
 			if op.Op == "verifywait" {
 				if !waitStopped(15 * time.Second) {
 					if hang != "" {
@@ -325,7 +342,7 @@ func runLife(c LifeCase) core.Result {
 				return core.Failf("%s: %s", name, hang)
 			}
 		case "addpeer":
-			if !call("AddPeer()", func() { _ = tor.AddPeer(ln.Addr().String()) }) {
+			if !call("AddPeer()", addPeers) {
 				return core.Failf("%s: %s", name, hang)
 			}
 		case "addtracker":
@@ -356,6 +373,7 @@ func runLife(c LifeCase) core.Result {
 			if m == nil {
 				continue
 			}
+			mutSeq++
 			m.Mutate(func(files map[string]*sstore.MemFile) {
 				var names []string
 				for i, f := range l.Files {
@@ -412,11 +430,13 @@ func runLife(c LifeCase) core.Result {
 		if !waitStopped(15 * time.Second) {
 			return core.Failf("the last command was verify; 15 s later the torrent is %v with %d/%d pieces, not Stopped (hang: %q)", st.Status, st.Pieces.Have, st.Pieces.Total, hang)
 		}
-		n, _ := image()
-		if int(st.Pieces.Have) != n {
-			return core.Failf("verification finished with %d pieces marked, storage holds %d correct pieces", st.Pieces.Have, n)
+		if mutSeq == verifyMutSeq { // the files were not touched after the verification was requested
+			n, _ := image()
+			if int(st.Pieces.Have) != n {
+				return core.Failf("verification finished with %d pieces marked, storage holds %d correct pieces", st.Pieces.Have, n)
+			}
+			dirty = false
 		}
-		dirty = false
 	case "start":
 		// a start issued while an earlier stop is still completing must not be lost: watch for longer than a stop can take
 		for dl := time.Now().Add(stopTimeout + 500*time.Millisecond); time.Now().Before(dl); time.Sleep(10 * time.Millisecond) {
@@ -462,7 +482,7 @@ func runLife(c LifeCase) core.Result {
 			_ = tor.Start() // a pending stop may still have been completing
 		}
 		if time.Since(lastAdd) > 500*time.Millisecond {
-			_ = tor.AddPeer(ln.Addr().String())
+			addPeers()
 			lastAdd = time.Now()
 		}
 		time.Sleep(10 * time.Millisecond)
@@ -473,7 +493,25 @@ func runLife(c LifeCase) core.Result {
 			st.Status, st.Pieces.Have, st.Pieces.Total, n, st.Peers.Total, st.Downloads, st.Error)
 	}
 	if n, ok := image(); !ok {
-		return core.Failf("converged to Seeding but only %d of %d pieces are correct on storage", n, l.NumPieces())
+		memMu.Lock()
+		m := mem
+		memMu.Unlock()
+		detail := ""
+		if m != nil {
+			snap := m.Snapshot()
+			for i, f := range l.Files {
+				if f.Pad != 0 {
+					continue
+				}
+				d := snap[l.ExpectedPath(i)]
+				k := 0
+				for k < len(d) && int64(k) < f.Length && d[k] == F[offs[i]+int64(k)] {
+					k++
+				}
+				detail += fmt.Sprintf(" [%s: %d bytes on storage, %d expected, first difference at %d]", l.ExpectedPath(i), len(d), f.Length, k)
+			}
+		}
+		return core.Failf("converged to Seeding but only %d of %d pieces are correct on storage:%s", n, l.NumPieces(), detail)
 	}
 	sesClosed = true
 	if !call("Session.Close()", func() { ses.Close() }) {
